@@ -148,9 +148,26 @@ def detect(argv):
         pid = meta['property']
         checks = meta.get('checks_to_run', [pid])
         # fresh sources, persistent object dir (incremental rebuilds)
+        # (rewrite exactly the files whose content differs, so their mtime is new and make rebuilds them;
+        #  never leave an object compiled from the previous seed's patch behind)
         for sub in ('src', 'include'):
-            shutil.rmtree(os.path.join(scratch, sub), ignore_errors=True)
-            shutil.copytree(os.path.join('/repo', sub), os.path.join(scratch, sub))
+            for root, _, files in os.walk(os.path.join('/repo', sub)):
+                for fn in files:
+                    srcp = os.path.join(root, fn)
+                    dstp = os.path.join(scratch, os.path.relpath(srcp, '/repo'))
+                    data = open(srcp, 'rb').read()
+                    try:
+                        same = open(dstp, 'rb').read() == data
+                    except OSError:
+                        same = False
+                    if not same:
+                        os.makedirs(os.path.dirname(dstp), exist_ok=True)
+                        with open(dstp, 'wb') as f:
+                            f.write(data)
+            for root, _, files in os.walk(os.path.join(scratch, sub)):
+                for fn in files:
+                    if fn.endswith(('.orig', '.rej')) or not os.path.exists(os.path.join('/repo', os.path.relpath(os.path.join(root, fn), scratch))):
+                        os.remove(os.path.join(root, fn))
         a = sh(['git', 'apply', '--directory', scratch.lstrip('/'), '--unsafe-paths', os.path.join(d, 'patch.diff')], cwd='/')
         if a.returncode != 0:
             a = sh('patch -p1 -d %s < %s' % (scratch, os.path.join(d, 'patch.diff')))
